@@ -129,7 +129,7 @@ def match_known(mod: Any, case: Any, clause: str, detail: str, known: Dict[str, 
 # shard worker
 
 
-def _shard_worker(check_id: str, tier: str, seed: int, shard: int, examples: int, shrink: bool, deadline_s: float, machine_examples: int = 0, machine_steps: int = 14) -> Dict[str, Any]:
+def _shard_worker(check_id: str, tier: str, seed: int, shard: int, examples: int, shrink: bool, deadline_s: float, machine_examples: int = 0, machine_steps: int = 14, examples2: int = 0) -> Dict[str, Any]:
     os.environ.setdefault("PYTHONHASHSEED", "0")
     result: Dict[str, Any] = {
         "shard": shard,
@@ -236,6 +236,12 @@ def _shard_worker(check_id: str, tier: str, seed: int, shard: int, examples: int
             if hasattr(mod, "strategy") and examples > 0:
                 test = hseed(derived ^ 0x5A5A)(cfg(given(mod.strategy(tier))(body)))
                 test()
+            if hasattr(mod, "strategy2") and examples2 > 0:
+                # second, slower generator of the same check (e.g. the end-to-end tier through the console entry point);
+                # its cases are self-describing, mod.evaluate dispatches on them
+                cfg2 = settings(cfg, max_examples=examples2, phases=[Phase.generate])
+                test2 = hseed(derived ^ 0xA5A5A5)(cfg2(given(mod.strategy2(tier))(body)))
+                test2()
         except Violation as vio:
             result["violation"] = {"clause": vio.clause, "detail": vio.detail, "case": jsonable(vio.case)}
         except hypothesis.errors.HypothesisException as exc:
@@ -403,7 +409,7 @@ def run_check(check_id: str, tier: str, seed: int, examples_override: Optional[i
     if shards > 0 and examples > 0 and (hasattr(mod, "strategy") or hasattr(mod, "machine")):
         with ProcessPoolExecutor(max_workers=min(shards, os.cpu_count() or 16)) as pool:
             futures = [
-                pool.submit(_shard_worker, check_id, tier, seed, k, examples, shrink, deadline_s, int(budget.get("machine_examples", 0)), int(budget.get("machine_steps", 14)))
+                pool.submit(_shard_worker, check_id, tier, seed, k, examples, shrink, deadline_s, int(budget.get("machine_examples", 0)), int(budget.get("machine_steps", 14)), int(budget.get("examples2", 0)))
                 for k in range(shards)
             ]
             for fut in as_completed(futures):
@@ -432,7 +438,7 @@ def run_check(check_id: str, tier: str, seed: int, examples_override: Optional[i
                 if res["violation"]:
                     vio = res["violation"]
                     case = vio["case"]
-                    if hasattr(mod, "minimize") and not shrink:
+                    if hasattr(mod, "minimize") and (not shrink or (isinstance(case, dict) and case.get("e2e"))):
                         enter_scratch()
                         try:
                             case = mod.minimize(case, vio["clause"])
@@ -470,6 +476,7 @@ def run_check(check_id: str, tier: str, seed: int, examples_override: Optional[i
         "budget_exhausted": budget_exhausted,
         "shards": shards,
         "examples_per_shard": examples,
+        "examples2_per_shard": int(budget.get("examples2", 0)),
     }
     for key, value in metrics.items():
         coverage[key] = float(value) if isinstance(value, Fraction) else value
